@@ -37,6 +37,52 @@ def gen_cases(rng, tier):
     return cases
 
 
+DIRECTED = [("walkdir", "d", None), ("walkdir", "", None), ("copydir", "d", "zz"), ("movedir", "d", "zz"), ("removedirall", "d", None),
+            ("copyfile", "g", "zz"), ("movefile", "d/f", "m/zz"), ("readdir", "d", None), ("readdir", "", None),
+            ("createdirall", "m/p/q", None), ("readtostring", "d/e/h", None), ("removedir", "m", None), ("removefile", "g", None),
+            ("createdir", "d/e/n", None), ("createfile", "d/e/n", None), ("append", "d/f", None)]
+
+
+def corpus_cases():
+    """the enumeration proper: on one populated tree, every composite (and the primitives that an overlay turns into
+    several calls), with the k-th call through EACH instance of the stack failing, for every k up to 11"""
+    import random
+    rng = random.Random(3)
+    cases = []
+    for kind in CONFIGS:
+        probe = vfx.Case("probe")
+        gp = hist.build_config(probe, kind, rng)
+        ninst = len(sorted(set([gp.target] + gp.watch)))
+        for opk, src, dst in DIRECTED:
+            for which in range(ninst):
+                for k in range(12):
+                    c = vfx.Case("c20_dir_%s_%s_%s_%d_%d" % (kind, opk, (src or "root").replace("/", "-"), which, k))
+                    g = hist.build_config(c, kind, rng)
+                    c.cfg = g
+                    t = g.target
+                    hist._matrix_setup(c, t)
+                    c.first_snap = c.nops - 1
+                    insts = sorted(set([t] + g.watch))
+                    fid = insts[which]
+                    c.fault_step = c.op("setfault", fid, k)
+                    c.fault = (fid, k)
+                    before = c.nops
+                    if opk in ("createfile", "append"):
+                        h = c.op("createfile" if opk == "createfile" else "appendfile", hist._ps(t, src))
+                        c.op("hwrite", h, vfx.hexs(b"NEW")); c.op("hdrop", h)
+                    elif dst is not None:
+                        c.op(opk, hist._ps(t, src), hist._ps(t, dst))
+                    else:
+                        c.op(opk, hist._ps(t, src))
+                    c.faulted_ops = list(range(before, c.nops))
+                    c.op("clearlog")
+                    c.after_snap = c.op("snap", t)
+                    for w in g.watch:
+                        c.op("tree", w)
+                    cases.append(c)
+    return cases
+
+
 def project(kind, case, step, op, line):
     if line is None:
         return None
@@ -84,8 +130,11 @@ def known(d):
 
 
 P = histprop.HistProp(
-    "C20", [], project=project, want_logs=True, extra_gen=gen_cases, oracle=oracle, known=known,
-    rule=("a fault-free typed history, then one operation (primitive, composite or observer) during which the k-th call "
+    "C20", [], project=project, want_logs=True, extra_gen=gen_cases, oracle=oracle, known=known, corpus_cases=corpus_cases,
+    rule=("DIRECTED: on one populated tree every composite operation (walk_dir, copy_dir, move_dir, remove_dir_all, copy_file, "
+          "move_file, create_dir_all, read_to_string, read_dir) and the primitives an overlay turns into several calls, with "
+          "the k-th call through EACH instance of the stack failing, for every k in 0..11, on 11 stackings; RANDOM: "
+          "a fault-free typed history, then one operation (primitive, composite or observer) during which the k-th call "
           "(k in {0,1,2,3,4,5,7,10,14}; all k <= 16 in the thorough tier) that passes through the recording wrapper of one "
           "instance of the stack (the target, the underlying filesystem of an altroot, the upper or a lower layer of an "
           "overlay) returns an I/O error; compared with the model's faulted run: outcome, snapshot afterwards and the "
